@@ -1811,11 +1811,11 @@ func (ctx *RenderContext) toBool(val interface{}) bool {
 	switch v := val.(type) {
 	case bool:
 		return v
-	case int, int8, int16, int32, int64:
+	case int:
 		return v != 0
-	case uint, uint8, uint16, uint32, uint64:
+	case int64:
 		return v != 0
-	case float32, float64:
+	case float64:
 		return v != 0
 	case string:
 		return v != ""
@@ -1825,7 +1825,9 @@ func (ctx *RenderContext) toBool(val interface{}) bool {
 		return len(v) > 0
 	}
 
-	// Try reflection for other types
+	// Other numeric types, typed collections and named types go through reflection
+	// (in a case listing several types v would still be an interface value, and
+	// comparing it with the untyped constant 0 is only true for int(0))
 	rv := reflect.ValueOf(val)
 	switch rv.Kind() {
 	case reflect.Bool:
